@@ -175,6 +175,14 @@ HOST_DIRECT = [
     "for i in range(batch_size):\n    self.lib_fn(x_flat[i], out[i])",
     "return torch.tensor(out & 1)",
 ]
+# guard (F47): raises or does nothing; every batch it lets through has input-size values per sample, which is all the model assumes
+CHECK_SHAPE = [
+    "declared = tuple((int(v) for v in self.input_shape))",
+    "ok = x.ndim >= 2 and int(np.prod(x.shape[1:])) == self._get_input_size()",
+    "if ok and len(declared) > 1:\n    ok = x.ndim == 2 or tuple(x.shape[1:]) == declared\n"
+    "elif ok and self.layer_order and (self.layer_order[0][0] != 'flatten'):\n    ok = x.ndim == 2",
+    "if not ok:\n    raise ValueError(f'expected a batch of samples of shape {declared}, got shape {tuple(x.shape)}')",
+]
 SETUP_FN = [
     "if self.num_classes:\n    lib_fn = lib.apply_logic_net\n    lib_fn.restype = None\n    lib_fn.argtypes = [np.ctypeslib.ndpointer(ctypes.c_bool, flags='C_CONTIGUOUS'), np.ctypeslib.ndpointer(BITS_TO_C_DTYPE[32], flags='C_CONTIGUOUS'), ctypes.c_size_t]\nelse:\n    lib_fn = lib.logic_net\n    lib_fn.restype = None\n    lib_fn.argtypes = [np.ctypeslib.ndpointer(BITS_TO_C_DTYPE[self.num_bits], flags='C_CONTIGUOUS'), np.ctypeslib.ndpointer(BITS_TO_C_DTYPE[self.num_bits], flags='C_CONTIGUOUS')]",
     "self.lib_fn = lib_fn",
@@ -191,7 +199,7 @@ def gen_host():
     the host code that Model/Wrapper.v (forward_with_groupsum) and Model/Host.v (forward_direct) model."""
     mod = _cm()
     for name, exp in (("_forward_with_groupsum", HOST_GROUPSUM), ("_forward_direct", HOST_DIRECT),
-                      ("_setup_library_function", SETUP_FN)):
+                      ("_setup_library_function", SETUP_FN), ("_check_batch_shape", CHECK_SHAPE)):
         got = _stmts(_method(mod, "CompiledLogicNet", name))
         if got != exp:
             for i, (a, b) in enumerate(zip(got, exp)):
@@ -201,6 +209,7 @@ def gen_host():
     f = _method(mod, "CompiledLogicNet", "forward")
     got = _stmts(f)
     exp = ["if isinstance(x, torch.Tensor):\n    x = x.numpy()",
+           "self._check_batch_shape(x)",
            "if self.num_classes:\n    return self._forward_with_groupsum(x, verbose)\nelse:\n    return self._forward_direct(x, verbose)"]
     if got != exp:
         _fail("forward: dispatch changed: " + repr(got))
